@@ -7,3 +7,27 @@ def eq_hash(x, y):
 
 def order_ops(x, y):
     return (x < y, x <= y, x > y, x >= y, x.compare_to(y), x == y)
+
+
+def eq_ne(x, y):
+    return (x == y, x != y)
+
+
+def fixed_zone_eq(o1, id1, n1, o2, id2, n2):
+    from pyoda_time.time_zones._fixed_date_time_zone import _FixedDateTimeZone
+
+    x, y = _FixedDateTimeZone(o1, id1, n1), _FixedDateTimeZone(o2, id2, n2)
+    return (x == y, hash(x), hash(y), x != y, x.equals(y))
+
+
+def one_order_op(x, y, op):
+    """a single ordering operation, so that each one's own guard is exercised"""
+    if op == "lt":
+        return x < y
+    if op == "le":
+        return x <= y
+    if op == "gt":
+        return x > y
+    if op == "ge":
+        return x >= y
+    return x.compare_to(y)
